@@ -193,6 +193,14 @@ func (lc *vLocalChain) addBlock(b *types.Block) error {
 	return nil
 }
 
+// vLocal is what the harness needs from the local chain (stub above, or a real chain.ChainService in the e2e runs)
+type vLocal interface {
+	types.ChainAccessor
+	best() int
+	mainHash(no int) []byte
+	addBlock(b *types.Block) error
+}
+
 // ---------------------------------------------------------------- block generation
 
 var vTsCounter int64 = 1_600_000_000_000_000_000
@@ -267,7 +275,9 @@ type vWorld struct {
 	remote []*types.Block // remote main chain
 	alt    []*types.Block // a bogus branch from genesis (same numbers, other hashes)
 	rno    map[string]int // hash -> number on the remote chain
-	lc     *vLocalChain
+	lc     vLocal
+	realAnchors func() ([][]byte, uint64) // e2e: the chain package's anchors (real Skip / MaxAnchors)
+	realAncestor func(hashes [][]byte) *types.BlockInfo // e2e: the remote chain service's findAncestor
 	cfg    *SyncerConfig
 	sy     *Syncer
 	peers  []types.PeerID
@@ -338,6 +348,9 @@ func (w *vWorld) peerIdx(id types.PeerID) int {
 
 // anchors of the local main chain (chain/chainanchor.go:getAnchorsNew with the model's Skip / MaxAnchors)
 func (w *vWorld) anchors() ([][]byte, uint64) {
+	if w.realAnchors != nil {
+		return w.realAnchors()
+	}
 	var hs [][]byte
 	no := w.lc.best()
 	last := no
